@@ -472,7 +472,7 @@ def run(ctx):
     ]
     k2_and_k1a(ctx)
     base = ctx.seed * 100000
-    n_frag = 150 if ctx.thorough else 26
+    n_frag = 160 if ctx.thorough else 32
     n_main = 60 if ctx.thorough else 10
     scs = []
     for i in range(n_frag):
